@@ -102,8 +102,12 @@ def rejects(lineno: Optional[int], offset: Optional[int], end_lineno: Optional[i
     before = len(r.feedback) + len(r.ignored_feedback)
     try:
         res = verify(report=r, muted=muted)
+        consumed = _state["raise"] is None
     finally:
         _state["raise"] = None
+    if not consumed:
+        flag("stub_dead")              # verify() no longer parses through the stubbed `ast` name
+        return True
     new = r.feedback + r.ignored_feedback
     syn = [f for f in new if f.category == "syntax"]
     if res is not False or len(new) != before + 1 or len(syn) != 1:
@@ -161,3 +165,14 @@ def rejects_reach(lineno: Optional[int], s0: bool) -> bool:
     finally:
         _state["raise"] = None
     return not (len(r.feedback) == 1 and r.feedback[0].location.line == 4)
+
+
+def stub_canary():
+    """True iff verify() still parses through the stubbed `ast` name of pedal.source.source."""
+    r, code = _setup(1, 0)
+    _state["raise"] = SyntaxError("invalid syntax", ("answer.py", 1, 1, None, 1, 2))
+    try:
+        verify(report=r)
+        return _state["raise"] is None
+    finally:
+        _state["raise"] = None
